@@ -425,10 +425,18 @@ func (g *Gen) table(d int) {
 			g.exp(d)
 		case 2:
 			g.emit("[")
-			if g.r.Bool() {
+			switch g.r.Intn(4) {
+			case 0:
 				g.emit(fmt.Sprintf("%d", i+10))
-			} else {
+			case 1:
 				g.emit(fmt.Sprintf("\"key%d\"", i))
+			case 2:
+				// a computed key: a variable read (and nothing else) inside the brackets
+				g.emit(g.someVar())
+			default:
+				g.noFunc++
+				g.exp(1)
+				g.noFunc--
 			}
 			g.emit("]", "=")
 			g.exp(d)
@@ -676,8 +684,20 @@ func (g *Gen) stat() {
 					g.suffix(ed-1, false)
 				}
 				g.noFunc--
-				// ensure the last suffix is an index, not a call
-				g.emit(".", g.r.Pick([]string{"fld", "fld", "f", "n", "x"}))
+				// ensure the last suffix is an index, not a call: a field, or a computed key that reads variables
+				if g.r.Chance(1, 3) {
+					g.emit("[")
+					if g.r.Bool() {
+						g.emit(g.someVar())
+					} else {
+						g.noFunc++ // (no function literals inside assignment targets, see above)
+						g.exp(1)
+						g.noFunc--
+					}
+					g.emit("]")
+				} else {
+					g.emit(".", g.r.Pick([]string{"fld", "fld", "f", "n", "x"}))
+				}
 			} else {
 				g.emit(g.assignable())
 			}
